@@ -36,7 +36,7 @@ CHECKS["C07"] = dict(
 CHECKS["C05"] = dict(
     category="proof",
     text="interpolate_fwd / interpolate_fwd_at_t1 of the real solver are verified for the three strategies and factorisations: the reported value is the exact Gaussian prediction from the left state, the state handed back for time stepping keeps the right state's marginal and all bookkeeping, and (with C02/C06/C07 frame clauses) stepping, error estimation and control do not depend on backward models or checkpoints.",
-    note="independence of the checkpoint set is the composition of these contracts with the C06 invariants and the C09 composition law (Chapman-Kolmogorov) -- that last composition step is a lemma about the spec, stated in DESIGN.md, not a separate machine-checked obligation; offgrid_marginals (searchsorted indexing) is not covered",
+    note="independence of the checkpoint set is the composition of these contracts with the C06 invariants and the C09 composition law (Chapman-Kolmogorov) -- that last composition step is a lemma about the spec, stated in DESIGN.md, not a separate machine-checked obligation. Also under contract: offgrid_marginals (searchsorted index resolved exactly for a query strictly inside step k; filter = prediction from the preceding state, fixed-interval smoother = RTS interpolation) and solve_adaptive_terminal_values (= last entry of the checkpointed routine on [t0,t1] with all arguments passed through)",
     design_ref="DESIGN.md section 4 (C05)",
 )
 
